@@ -329,7 +329,7 @@ def stream_objective(ck: Check, impl: Impl) -> None:
                         (1, ll, 1, 0, 0, ll), (1, ll, 1, ll + 1, 0, ll), (1, ll, 1, ll, -1, ll),
                         (1, ll, 1, ll, 1, 0), (1, ll, 1, ll, 0, ll + 1)):
                 todo.append(("exh2_nearvalid", 2, rounds, cfg, [list(r) for r in plan]))
-    n_inst = 500 if ck.quick else 4000
+    n_inst = 1000 if ck.quick else 4000
     per_inst = 8 if ck.quick else 14
     for _ in range(n_inst):
         n = rng.choice([2, 4, 4, 6, 6, 8, 10])
@@ -383,7 +383,7 @@ def stream_raw(ck: Check, impl: Impl) -> None:
     """Raw kernel, every configuration corner (also settings the constructor rejects), dirty scratch
     arrays of both storage types; under NUMBA_BOUNDSCHECK=1 also plans/scratch arrays outside the valid range."""
     rng, np = ck.rng, impl.np
-    n_cases = 2000 if ck.quick else 20000
+    n_cases = 4000 if ck.quick else 20000
     lines, expect = [], []
     for _ in range(n_cases):
         n = rng.choice([2, 4, 4, 6, 8, 10])
@@ -438,6 +438,40 @@ def streams(ck: Check) -> None:
     stream_raw(ck, impl)
 
 
+def replay(path: str) -> int:
+    """`./check C07 --replay replays/C07-impl-<seed>.json`: re-run the recorded failing inputs on the real
+    kernel and on the Lean model/spec; exit 1 if the implementation still contradicts the specification."""
+    import json
+    from . import common
+    obj = json.loads(open(path).read())
+    ck = Check("C07", "quick", 0)
+    impl = Impl()
+    np = impl.np
+    bad = 0
+    for v in obj.get("violations", []):
+        c = v["case"]
+        n, rounds, cfg, plan = c["n"], c["rounds"], tuple(c["cfg"]), c["plan"]
+        t1 = np.full(n * (n - 1) // 2, 77, np.int64)
+        t2 = np.full((n, n), -5, np.int64)
+        val = impl.raw(plan, cfg, t1, t2)
+        line = line_for(n, rounds, [cfg], plan, t1.tolist(), t2.tolist())
+        d = kv(ck.model([line])[0])
+        rec = d.get("r", "").split(",")
+        ub = (4 * (n - 1) * rounds - 1) * n - 1
+        print(f"{v['key']}: n={n} rounds={rounds} cfg={list(cfg)} plan={plan}")
+        print(f"  implementation: count_errors={val} upper_bound={ub}; model: {rec[0]}; spec: accepted={rec[9] if len(rec) == 12 else '?'} "
+              f"feasible={rec[10] if len(rec) == 12 else '?'} documented={rec[11] if len(rec) == 12 else '?'} consistent={d.get('cons')}")
+        before = len(ck.spec_violations) + len(ck.known)
+        oracle(ck, n, rounds, cfg, plan, val, ub, d, rec if len(rec) == 12 else None, "replay")
+        if len(ck.spec_violations) + len(ck.known) > before:
+            bad += 1
+            print("  -> still violates the specification")
+        else:
+            print("  -> no longer violates the specification")
+    del common
+    return 1 if bad else 0
+
+
 def check(ck: Check) -> None:
     ck.rule = ("exhaustive: all 12^6 day-wise consistent four-team double round-robin plans (quick: seeded 2 % slice) "
                "x 6 (quick 4) constraint settings on the raw kernel; all 2-team plans over 9 day rows for rounds 1..3 "
@@ -457,5 +491,9 @@ def check(ck: Check) -> None:
         "(mutually consistent plan, home/away_streak_min <= 1, separation_min <= 1, separation_max >= D-2); "
         "negations at concrete witnesses are Lean examples in Props/C07.lean",
     ]
+    ck.extra["exhaustive_enumeration"] = (
+        "all 12^6 = 2,985,984 day-wise consistent four-team double round-robin plans x 6 settings in the thorough tier "
+        "(seeded 2 % slice x 4 settings in quick): kernel value = model value, value = 0 <=> Lean FeasiblePlan, "
+        "0 <= value, value <= upper bound inside the proved class")
     ck.lean(["Props.C07"], THEOREMS)
     streams(ck)
